@@ -572,14 +572,19 @@ func c18RunScenarioWith(scn c18Scn, uniq int, hooks *c18Hooks) *c18ScnResult {
 	// quiet = nothing observable happened for a while, measured in ticks of
 	// a canary goroutine so that a loaded machine stretches the window
 	settle := func() {
-		quietTicks := 0
+		quietTicks, waited := 0, 0
 		need := 40 + 4*scn.MaxMs
 		last := atomic.LoadInt64(&activity)
 		for quietTicks < need {
 			time.Sleep(time.Millisecond)
-			if a := atomic.LoadInt64(&activity); a != last {
+			if a := atomic.LoadInt64(&activity); a != last || client.VerifC18Connecting() {
+				// something happened, or the client is inside its
+				// connect/retry loop (possibly starved by a loaded machine)
 				last = a
 				quietTicks = 0
+				if waited++; waited > 3000 {
+					break
+				}
 			} else {
 				quietTicks++
 			}
